@@ -571,7 +571,7 @@ def rule_energy_nelec(chk):
                                   instance=inst)
 
 
-def analyse(chk):
+def _analyse_own(chk):
     chk.rule("potential-consume", "(vxc, vxc_nldf, vxc_sdmx) of eval_xc_cider are each consumed by def-use")
     chk.rule("ladder-mirror", "forward and backward family ladders of eval_xc_cider mirror each other")
     chk.rule("scale-pair", "in-place scaling of the ML energy is applied to its derivative too")
@@ -595,6 +595,14 @@ def analyse(chk):
         "that vmat equals dE/dDM numerically for any density matrix (the assembled pipeline cannot run here)",
         "accuracy of nelec; correctness of the plans' get_vxc / the generators' get_potential themselves (C05, C07)",
     ]
+
+
+def analyse(chk):
+    _analyse_own(chk)
+    chk.guard(lambda c_: core.include_findings(c_, 'C05', files=None, rules=None,
+                                               why='the potential is assembled from the backward operators; an operator pair that is not an adjoint pair breaks vmat = dE/dDM'))
+    chk.guard(lambda c_: core.include_findings(c_, 'C10', files=['ciderpress/lib/mod_cider/convolutions.c', 'ciderpress/lib/mod_cider/conv_interpolation.c', 'ciderpress/lib/mod_cider/fast_sdmx.c'], rules=None,
+                                               why='a data race in the anchored C kernels makes vmat/exc depend on the schedule'))
 
 
 def mutants(tree):
